@@ -1,5 +1,6 @@
 import FrappyDrive.DTypes
 import FrappyModel.Datatypes.Import
+import FrappyModel.Datatypes.ErrText
 import FrappyModel.Spec.C01
 /-
 Line-protocol glue for C01.  One request = one complete case:
@@ -138,7 +139,7 @@ def handle (j : Json) : R Json := do
          | some imp => judgeWire dt cand prev imp ival ire1 ire2
          | none => ["import:missing"]) ++
         (match icall with
-         | some c => judgeCall c irecall
+         | some c => judgeConv dt (PVal.ofJVal cand) c irecall
          | none => [])
       return Json.mkObj [("wf", .bool dt.wfB),
         ("model", Json.mkObj [("imp", outcomeToJson (some mimp)), ("val", outcomeToJson mval),
@@ -157,7 +158,7 @@ def handle (j : Json) : R Json := do
          | some v => judgeValidate dt cand prev v ire1 ire2
          | none => ["validate:missing"]) ++
         (match icall with
-         | some c => judgeCall c irecall
+         | some c => judgeConv dt cand c irecall
          | none => [])
       return Json.mkObj [("wf", .bool dt.wfB),
         ("model", Json.mkObj [("imp", .null), ("val", outcomeToJson (some mval)),
@@ -189,6 +190,47 @@ def handle (j : Json) : R Json := do
       | _, .ok c => return ParamEvent.change (← jvalOfJson c)
       | _, _ => throw "bad event")
     return Json.mkObj [("wf", .bool dt.wfB), ("held", pvalToJson (holdRun dt held0 evs))]
+  | "result" =>
+    -- `Command.do` of a command with argument type `argdt` (or null) and result type `dt` (or null) whose function
+    -- returns `ret`: what it handed back (`out`), and what converting that again gives (`again`)
+    let optDT (key : String) : R (Option (DType Float)) := do
+      match j.getObjVal? key with
+      | .ok .null => pure none
+      | .ok t => return some (← dtypeOfJson t)
+      | .error _ => pure none
+    let resT ← optDT "dt"
+    let argT ← optDT "argdt"
+    let data : Option (JVal Float) ← (match j.getObjVal? "data" with
+      | .ok d => do return some (← jvalOfJson d)
+      | .error _ => pure none)
+    let ret ← pvalOfJson (← fld j "ret")
+    let out ← outcomeOfJson (← fld j "out")
+    let again ← outcomeOfJson (← fld j "again")
+    let m := outcomeOfRes (commandDo argT resT (fun _ => ret) data)
+    let verdict := match out with
+      | some o => judgeResult resT ret o again
+      | none => ["result:missing"]
+    let wf := (match resT with | some t => t.wfB | none => true) && (match argT with | some t => t.wfB | none => true)
+    return Json.mkObj [("wf", .bool wf), ("model", outcomeToJson (some m)), ("judge", jstrs verdict)]
+  | "helper" =>
+    -- the error-text helper `shortrepr` on one candidate: `repr` = what `repr(candidate)` did ({"ok": text} |
+    -- {"other": class}), `tname` = type(candidate).__name__, `out` = what `shortrepr(candidate)` did
+    let strOutcome (x : Json) : R (Except String String) := do
+      match x.getObjVal? "ok", x.getObjVal? "other" with
+      | .ok v, _ => return .ok (← v.getStr?)
+      | _, .ok c => return .error (← c.getStr?)
+      | _, _ => throw s!"bad text outcome {x.compress}"
+    let rp ← strOutcome (← fld j "repr")
+    let tname ← fldStr j "tname"
+    let out ← strOutcome (← fld j "out")
+    let m := shortrepr (fun (_ : Unit) => rp) (fun _ => tname) ()
+    let toJ : Except String String → Json
+      | .ok t => Json.mkObj [("ok", .str t)]
+      | .error c => Json.mkObj [("other", .str c)]
+    let o : Outcome Float := match out with
+      | .ok t => .ok (.str t)
+      | .error c => .other c
+    return Json.mkObj [("model", toJ m), ("judge", jstrs (judgeHelper o))]
   | "laws" =>
     let tuples ← (← fldArr j "tuples").mapM (fun t => do
       match ← arr t with
